@@ -424,6 +424,18 @@ class SpecMixin:
             return mk_int(self.hget(st, "$it_pos", args[0].z))
         if f == "it_pairs":
             return mk_bool(self.hget(st, "$it_pairs", args[0].z))
+        if f in ("fst", "succ"):   # leftmost leaf of a node's subtree / what its rightmost leaf points to
+            o = args[0].z
+            cid = self.hget(st, "$cls", o)
+            leaf = z3.Or(cid == CLASS_IDS["Bucket"], cid == CLASS_IDS["Set"])
+            if f == "fst":
+                return SV("ref", z3.If(leaf, o, self.hget(st, "$fst", o)))
+            return SV("ref", z3.If(leaf, self.hget(st, "_next", o), self.hget(st, "$succ", o)))
+        if f == "wfsub":           # the subtree below a node is well formed (leaves: their own invariant, stated apart)
+            o = args[0].z
+            cid = self.hget(st, "$cls", o)
+            leaf = z3.Or(cid == CLASS_IDS["Bucket"], cid == CLASS_IDS["Set"])
+            return mk_bool(z3.Or(leaf, self.hget(st, "$wf", o)))
         if f == "checked":     # node._check(next) returned normally (learnt at a call site; see ghost 'learn')
             b = args[1].z if args[1].kind == "ref" else z3.IntVal(0)
             return mk_bool(CHECKED(args[0].z, b))
